@@ -6,6 +6,12 @@ import Driver.Ops.Audit
 import Driver.Ops.Equity
 import Driver.Ops.Price
 import Driver.Ops.Export
+import Driver.Ops.GitSel
+import Driver.Ops.Out
+import Driver.Ops.Scale
+import Driver.Ops.Strict
+import Driver.Ops.Ts
+import Driver.Ops.Cfg
 /-! Line-protocol driver of the model: one JSON case per input line, one JSON answer per line.
     To add an op: write `Driver/Ops/<Name>.lean`, import it here, add one line to `opTable`
     (or to `outputTable` for a new output kind of op `run`). -/
@@ -18,6 +24,8 @@ def outputTable : List (String × Ops.OutputFn) := [
   ("register", Ops.outRegister),
   ("register_all", Ops.outRegisterAll),
   ("equity", Ops.outEquity),
+  ("baltxt", Ops.outBalanceTxt),
+  ("probe", Ops.outProbe),
   ("identity", Ops.outIdentity),
   ("roundtrip", Ops.outRoundtrip)
 ]
@@ -25,13 +33,21 @@ def outputTable : List (String × Ops.OutputFn) := [
 /-- ops -/
 def opTable : List (String × (Json → R Json)) := [
   ("run", Ops.opRun outputTable),
-  ("parse", Ops.opParse),
   ("rematch", Ops.opRematch),
   ("peel", Ops.opPeel),
   ("selects", Ops.opSelects),
   ("audit", Ops.opAudit),
   ("hash", Ops.opHash),
-  ("price", Ops.opPrice)
+  ("price", Ops.opPrice),
+  ("parse", Ops.opParse),
+  ("gitsel", Ops.opGitSel),
+  ("out", Ops.opOut),
+  ("bufw", Ops.opBufw),
+  ("fmt", Ops.opFmt),
+  ("strict", Ops.opStrict outputTable),
+  ("ts", Ops.opTs),
+  ("tsfmt", Ops.opTsfmt),
+  ("cfg", Ops.opCfg)
 ]
 
 def dispatch (j : Json) : R Json := do
